@@ -20,28 +20,40 @@ Depth    == Profile.depth
 MaxNest  == Profile.maxnest
 MinLen   == Profile.minlen
 
+Typed    == Profile.typed             \* TRUE: a call is generated only when the temporaries it reads
+                                      \* have been assigned on every path leading to it
+
 VARIABLES calls,   \* sequence of indices into Alphabet
           stack,   \* open blocks, innermost last: "if" or "else"
-          lastIf   \* an if_ block has been closed and not yet consumed by leaving an else_
+          lastIf,  \* an if_ block has been closed and not yet consumed by leaving an else_
+          defd     \* stack of sets of names certainly assigned: one entry per open block + the phase level
 
-vars == <<calls, stack, lastIf>>
+vars == <<calls, stack, lastIf, defd>>
 
-Init == calls = <<>> /\ stack = <<>> /\ lastIf = FALSE
+Init == calls = <<>> /\ stack = <<>> /\ lastIf = FALSE /\ defd = <<{}>>
+
+SeqSet(s) == {s[k] : k \in DOMAIN s}
+Top == defd[Len(defd)]
+Ready(k) == ~Typed \/ SeqSet(Alphabet[k].needs) \subseteq Top
 
 Idx(op) == {k \in DOMAIN Alphabet : Alphabet[k].op = op}
 Structural == {"if", "else", "endif", "endelse"}
 
 Plain(k) ==
     /\ Alphabet[k].op \notin Structural
+    /\ (IF Typed THEN SeqSet(Alphabet[k].needs) \subseteq Top ELSE TRUE)
     /\ calls' = Append(calls, k)
+    /\ defd' = [defd EXCEPT ![Len(defd)] = @ \cup SeqSet(Alphabet[k].defs)]
     /\ UNCHANGED <<stack, lastIf>>
 
 OpenIf(k) ==
     /\ Alphabet[k].op = "if"
     /\ Len(stack) < MaxNest
     /\ Len(calls) + Len(stack) + 2 <= Depth   \* room for the matching close
+    /\ (IF Typed THEN SeqSet(Alphabet[k].needs) \subseteq Top ELSE TRUE)
     /\ calls' = Append(calls, k)
     /\ stack' = Append(stack, "if")
+    /\ defd' = Append(defd, Top)                 \* what is assigned inside is certain only inside
     /\ UNCHANGED lastIf
 
 OpenElse(k) ==
@@ -51,6 +63,7 @@ OpenElse(k) ==
     /\ Len(calls) + Len(stack) + 2 <= Depth
     /\ calls' = Append(calls, k)
     /\ stack' = Append(stack, "else")
+    /\ defd' = Append(defd, Top)
     /\ UNCHANGED lastIf
 
 Close(k) ==
@@ -60,6 +73,7 @@ Close(k) ==
          /\ lastIf' = (top = "if")
     /\ calls' = Append(calls, k)
     /\ stack' = SubSeq(stack, 1, Len(stack) - 1)
+    /\ defd' = SubSeq(defd, 1, Len(defd) - 1)
 
 \* blocks still open must be closable within the depth bound
 Room == Len(calls) + Len(stack) < Depth
